@@ -29,15 +29,37 @@ def isProposal : Op → Bool
   | .treasury _ _ => true
   | _ => false
 
+/-- a well-formed target address string: 40 hex digits, optionally prefixed `0x`/`0X` (`common.IsHexAddress`) -/
+def plainAddr (a : Bytes) : Bool :=
+  (a.length == 40 && wellFormedHex a) || (a.length == 42 && has0x a && wellFormedHex (a.drop 2))
+
+/-- `got` has as many entries as were submitted and agrees with `want` wherever the submitted text is well-formed
+(the property speaks of well-formed hex only; what the lenient decoders make of malformed text is proved for the
+model and compared by the correspondence, but it is not part of the property's statement) -/
+def agreeWhere (wf : Bytes → Bool) : List Bytes → List Bytes → List Bytes → Bool
+  | [], [], [] => true
+  | s :: ss, w :: ws, g :: gs => (!wf s || w == g) && agreeWhere wf ss ws gs
+  | _, _, _ => false
+
+/-- the answer `got` records the submission `src` (whose exact model image is `want`) faithfully -/
+def faithful (src : Metadata) (want : Proposal) (got : Option Proposal) : Bool :=
+  match got with
+  | none => false
+  | some g =>
+    g.id == want.id && g.title == want.title && g.desc == want.desc && g.values == want.values &&
+    g.signatures == want.signatures && agreeWhere plainAddr src.account want.targets g.targets &&
+    agreeWhere wellFormedHex src.calldatas want.calldatas g.calldatas
+
 /-- **recorded faithfully** (lending-market): after an accepted proposal the store answers, under the id the
 proposal specifies — or the next gov proposal id when it specifies none — exactly the submitted title,
-description, targets, values, signatures and decoded call data -/
+description, values, signatures, the targets (where written as 40 hex digits) and the decoded call data
+(where well-formed hex) -/
 def storedFaithfully (t : Tr) : Bool :=
   match t.op with
-  | .lm _ _ =>
+  | .lm m _ =>
     !t.ok ||
-    (match expected t.pre t.op with
-     | some p => query t.post p.id == some p
+    (match m.metadata with
+     | some md => faithful md (content t.pre m.title m.desc md) (query t.post (effId t.pre md.propId))
      | none => true)
   | _ => true
 
@@ -49,8 +71,9 @@ def treasuryFields (t : Tr) : Bool :=
     !t.ok ||
     (match m.metadata with
      | some md =>
-       query t.post (effId t.pre md.propId) ==
-         some ⟨effId t.pre md.propId, m.title, m.desc, [hexToAddress md.recipient], [md.amount], [md.denom], []⟩
+       faithful (fromTreasury md)
+         ⟨effId t.pre md.propId, m.title, m.desc, [hexToAddress md.recipient], [md.amount], [md.denom], []⟩
+         (query t.post (effId t.pre md.propId))
      | none => true)
   | _ => true
 
